@@ -2,8 +2,9 @@
   Trees of components across the deferred pipeline, to any depth and width (model of the code).
 
   Fragment `T`: templates built from text, `{{ }}`, if, for, with, elements, `{% slot %}` tags (not flagged `default`) and
-  `{% component name … %}…{% endcomponent %}` tags whose body is empty or made of `{% fill "name" [data="d"] %}` tags with
-  content of the fragment (`tnode` / `tnodes` / `fbody`), where every registered component's template is again in `T` — so
+  `{% component name … %}…{% endcomponent %}` tags whose body is empty, made of `{% fill "name" [data="d"] %}` tags with
+  content of the fragment, or content of the fragment without fill tags — the implicit fill of the `default` slot
+  (`tnode` / `tnodes` / `fbody` / `gbody`), where every registered component's template is again in `T` — so
   components nest through templates and through fill content, repeat in loops and may even be recursive — and component
   data come from the call (keyword arguments, constants, the id).  A slot renders the fill of its name held by the
   instance its context names, else its own default content (`slot_unfolds`).
@@ -39,7 +40,7 @@ mutual
     | .forn _ _ b => tnodes b
     | .withn _ _ b => tnodes b
     | .elem _ b => tnodes b
-    | .comp name _ _ _ body => fbody body && !isDynName name
+    | .comp name _ _ _ body => (fbody body || tnodes body) && !isDynName name
     | .slot _ isDefault _ _ body => !isDefault && tnodes body
     | _ => false
   def tnodes : List Node → Bool
@@ -51,6 +52,10 @@ mutual
     | .fill (.lit _) _ none content :: rest => tnodes content && fbody rest
     | _ => false
 end
+
+/-- the body of a component tag in the fragment: `{% fill %}` tags, or content without fill tags (the implicit fill of
+the `default` slot) -/
+def gbody (body : List Node) : Bool := fbody body || tnodes body
 
 def constFree : Src → Bool
   | .const v => slotFree v
@@ -794,7 +799,7 @@ structure Stmt (env : Env) (n : Nat) : Prop where
     (renderFor env n x items i body ctx).run.run w = (.ok toks, w') → Bal env w w' (holeIds toks)
   node : ∀ nd ctx w toks w', tnode nd = true → ctxFree ctx = true → WInv w →
     (renderNode env n nd ctx).run.run w = (.ok toks, w') → Bal env w w' (holeIds toks)
-  tag : ∀ name kwargs only dyn body ctx w toks w', isDynName name = false → fbody body = true → ctxFree ctx = true → WInv w →
+  tag : ∀ name kwargs only dyn body ctx w toks w', isDynName name = false → gbody body = true → ctxFree ctx = true → WInv w →
     (renderCompTag env n name kwargs only dyn body ctx).run.run w = (.ok toks, w') → Bal env w w' (holeIds toks)
   impl : ∀ name kw fills o ctx w toks w', isDynName name = false → ctxFree ctx = true → ctxFree o = true → slotFreeKvs kw = true →
     GoodFills fills → WInv w →
@@ -1361,6 +1366,143 @@ theorem extract_ok (env : Env) : ∀ (n : Nat) (body : List Node) (ctx : Ctx) (w
     | «extends» _ => simp [fbody] at hb
     | includen _ => simp [fbody] at hb
 
+theorem bind_any {α β} (x : M α) (f : α → M β) (w w' : World) (r : Except Err β)
+    (h : (x >>= f).run.run w = (r, w')) :
+    (∃ e, x.run.run w = (.error e, w')) ∨ ∃ a w1, x.run.run w = (.ok a, w1) ∧ (f a).run.run w1 = (r, w') := by
+  rw [run_bind] at h
+  rcases hx : x.run.run w with ⟨r1, w1⟩
+  simp only [hx] at h
+  cases r1 with
+  | error e =>
+    left
+    have h' : ((Except.error e : Except Err β), w1) = (r, w') := h
+    have := snd_eq h'
+    subst this
+    exact ⟨e, rfl⟩
+  | ok a => right; exact ⟨a, w1, rfl, h⟩
+
+theorem isExtracting_push_any (ctx : Ctx) (l : Layer) (h : isExtracting ctx = true) : isExtracting (ctx ++ [l]) = true := by
+  simp only [isExtracting, ctxHas, ctxGet_append_one] at h ⊢
+  cases lookupL fillGenKey l <;> simp [h]
+
+/-- only the step counter moved -/
+def StepsOnly (w w' : World) : Prop := ∃ st, w' = { w with steps := st }
+theorem StepsOnly.refl (w : World) : StepsOnly w w := ⟨w.steps, rfl⟩
+theorem StepsOnly.trans {a b c : World} (h1 : StepsOnly a b) (h2 : StepsOnly b c) : StepsOnly a c := by
+  obtain ⟨s1, rfl⟩ := h1
+  obtain ⟨s2, rfl⟩ := h2
+  exact ⟨s2, rfl⟩
+
+/-- reading content of the fragment in fill-extraction mode (component and slot tags print nothing there): whatever the
+outcome, only the step counter moved -/
+structure XStmt (env : Env) (n : Nat) : Prop where
+  nodes : ∀ nodes ctx w r w', tnodes nodes = true → ctxFree ctx = true → isExtracting ctx = true →
+    (renderNodes env n nodes ctx).run.run w = (r, w') → StepsOnly w w'
+  for_ : ∀ x items i body ctx w r w', tnodes body = true → ctxFree ctx = true → (∀ it ∈ items, slotFree it = true) →
+    isExtracting ctx = true → (renderFor env n x items i body ctx).run.run w = (r, w') → StepsOnly w w'
+  node : ∀ nd ctx w r w', tnode nd = true → ctxFree ctx = true → isExtracting ctx = true →
+    (renderNode env n nd ctx).run.run w = (r, w') → StepsOnly w w'
+
+theorem xstmt_all (env : Env) : ∀ n, XStmt env n
+  | 0 => by
+    constructor
+    · intro nodes ctx w r w' _ _ _ h; simp only [renderNodes, run_throw] at h; rw [← snd_eq h]; exact StepsOnly.refl w
+    · intro x items i body ctx w r w' _ _ _ _ h; simp only [renderFor, run_throw] at h; rw [← snd_eq h]; exact StepsOnly.refl w
+    · intro nd ctx w r w' _ _ _ h; simp only [renderNode, run_throw] at h; rw [← snd_eq h]; exact StepsOnly.refl w
+  | n + 1 => by
+    have ih := xstmt_all env n
+    constructor
+    · intro nodes ctx w r w' ht hc hx h
+      cases nodes with
+      | nil => simp only [renderNodes, run_pure] at h; rw [← snd_eq h]; exact StepsOnly.refl w
+      | cons nd rest =>
+        simp only [tnodes, Bool.and_eq_true] at ht
+        simp only [renderNodes] at h
+        rcases bind_any _ _ _ _ _ h with ⟨e, h1⟩ | ⟨a, w1, h1, h⟩
+        · exact ih.node nd ctx w _ w' ht.1 hc hx h1
+        · have s1 := ih.node nd ctx w _ w1 ht.1 hc hx h1
+          rcases bind_any _ _ _ _ _ h with ⟨e, h2⟩ | ⟨b, w2, h2, h⟩
+          · exact s1.trans (ih.nodes rest ctx w1 _ w' ht.2 hc hx h2)
+          · simp only [run_pure] at h
+            rw [← snd_eq h]
+            exact s1.trans (ih.nodes rest ctx w1 _ w2 ht.2 hc hx h2)
+    · intro x items i body ctx w r w' ht hc hi hx h
+      cases items with
+      | nil => simp only [renderFor, run_pure] at h; rw [← snd_eq h]; exact StepsOnly.refl w
+      | cons item items =>
+        simp only [renderFor] at h
+        have hit := hi item (List.mem_cons_self ..)
+        have hcf := ctxFree_push ctx _ hc (forLayer_free ctx x i item hc hit)
+        have hxf := isExtracting_push_any ctx (forLayer ctx x i item) hx
+        rcases bind_any _ _ _ _ _ h with ⟨e, h1⟩ | ⟨a, w1, h1, h⟩
+        · exact ih.nodes body _ w _ w' ht hcf hxf h1
+        · have s1 := ih.nodes body _ w _ w1 ht hcf hxf h1
+          rcases bind_any _ _ _ _ _ h with ⟨e, h2⟩ | ⟨b, w2, h2, h⟩
+          · exact s1.trans (ih.for_ x items (i + 1) body ctx w1 _ w' ht hc (fun it h => hi it (List.mem_cons_of_mem _ h)) hx h2)
+          · simp only [run_pure] at h
+            rw [← snd_eq h]
+            exact s1.trans (ih.for_ x items (i + 1) body ctx w1 _ w2 ht hc (fun it h => hi it (List.mem_cons_of_mem _ h)) hx h2)
+    · intro nd ctx w r w' ht hc hx h
+      unfold renderNode at h
+      simp only [run_bind, run_get] at h
+      by_cases hst : w.steps ≥ env.maxSteps
+      · simp only [hst, if_true, run_throw] at h; rw [← snd_eq h]; exact StepsOnly.refl w
+      · simp only [hst, if_false, run_set] at h
+        have s0 : StepsOnly w ({ w with steps := w.steps + 1 } : World) := ⟨_, rfl⟩
+        cases nd with
+        | text s => simp only [run_pure] at h; rw [← snd_eq h]; exact s0
+        | out e =>
+          have hv := evalExpr_free ctx e hc
+          cases hev : evalExpr ctx e <;> simp only [hev, slotFree, run_bind, run_set, run_pure] at hv h <;> first
+            | (rw [← snd_eq h]; exact s0)
+            | cases hv
+        | ifn c t e =>
+          simp only [tnode, Bool.and_eq_true] at ht
+          simp only at h
+          split at h
+          · exact s0.trans (ih.nodes t ctx _ _ w' ht.1 hc hx h)
+          · exact s0.trans (ih.nodes e ctx _ _ w' ht.2 hc hx h)
+        | forn x e body =>
+          simp only [tnode] at ht
+          exact s0.trans (ih.for_ x _ 0 body ctx _ _ w' ht hc (iterVals_free _ (evalExpr_free ctx e hc)) hx h)
+        | withn x e body =>
+          simp only [tnode] at ht
+          refine s0.trans (ih.nodes body _ _ _ w' ht (ctxFree_push ctx _ hc ?_) (isExtracting_push_any ctx _ hx) h)
+          simp [slotFreeKvs, evalExpr_free ctx e hc]
+        | elem tag body =>
+          simp only [tnode] at ht
+          rcases bind_any _ _ _ _ _ h with ⟨e, hs⟩ | ⟨u, ws, hs, h⟩
+          · simp only [run_set] at hs; cases hs
+          · simp only [run_set] at hs
+            obtain ⟨_, rfl⟩ := ok_inj hs
+            rcases bind_any _ _ _ _ _ h with ⟨e, h1⟩ | ⟨a, w1, h1, h⟩
+            · exact s0.trans (ih.nodes body ctx _ _ w' ht hc hx h1)
+            · simp only [run_pure] at h
+              rw [← snd_eq h]
+              exact s0.trans (ih.nodes body ctx _ _ w1 ht hc hx h1)
+        | comp name kwargs only dyn body =>
+          -- `ComponentNode.render` returns at once while fills are being read
+          cases n with
+          | zero => simp only [renderCompTag, run_throw] at h; rw [← snd_eq h]; exact s0
+          | succ m =>
+            unfold renderCompTag at h
+            simp only [hx, ↓reduceIte, run_pure] at h
+            rw [← snd_eq h]; exact s0
+        | slot nameE isDefault isRequired data body =>
+          cases n with
+          | zero => simp only [renderSlot, run_throw] at h; rw [← snd_eq h]; exact s0
+          | succ m =>
+            unfold renderSlot at h
+            by_cases hdeep : (evalKwargs ctx data).any (fun kv => tooDeep 10 kv.2) = true
+            · simp only [hdeep, ↓reduceIte, run_bind, run_throw] at h; rw [← snd_eq h]; exact s0
+            · simp only [hdeep, hx, Bool.false_eq_true, ↓reduceIte, run_bind, run_pure] at h; rw [← snd_eq h]; exact s0
+        | fill a b c d => simp [tnode] at ht
+        | provide a b c => simp [tnode] at ht
+        | block a b => simp [tnode] at ht
+        | blockSuper => simp [tnode] at ht
+        | «extends» a => simp [tnode] at ht
+        | includen a => simp [tnode] at ht
+
 theorem goodFills_sSet (k : Str) (v : FillFn) : ∀ (l : List (Str × FillFn)), GoodFill v → GoodFills l → GoodFills (sSet k v l)
   | [], hv, _ => by
     intro kv hkv
@@ -1391,7 +1533,7 @@ theorem isExtracting_push (ctx : Ctx) : isExtracting (ctx ++ [[(fillGenKey, Val.
 
 /-- `resolve_fills` on a body of the fragment: the fills are of the fragment, the world is as before (the capture list is
 restored) -/
-theorem resolveFills_ok (env : Env) (n : Nat) (body : List Node) (ctx : Ctx) (w w' : World) (fills : List (Str × FillFn))
+theorem resolveFills_ok_f (env : Env) (n : Nat) (body : List Node) (ctx : Ctx) (w w' : World) (fills : List (Str × FillFn))
     (hb : fbody body = true) (hc : ctxFree ctx = true)
     (h : (resolveFills env (n + 1) body ctx).run.run w = (.ok fills, w')) :
     GoodFills fills ∧ ∃ st, w' = { w with steps := st } := by
@@ -1422,8 +1564,41 @@ theorem resolveFills_ok (env : Env) (n : Nat) (body : List Node) (ctx : Ctx) (w 
         cases h
     · cases h
 
+/-- `resolve_fills` on a body of the fragment — fill tags, or content without fill tags (the implicit `default` fill) -/
+theorem resolveFills_ok (env : Env) (n : Nat) (body : List Node) (ctx : Ctx) (w w' : World) (fills : List (Str × FillFn))
+    (hb : gbody body = true) (hc : ctxFree ctx = true)
+    (h : (resolveFills env (n + 1) body ctx).run.run w = (.ok fills, w')) :
+    GoodFills fills ∧ ∃ st, w' = { w with steps := st } := by
+  simp only [gbody, Bool.or_eq_true] at hb
+  rcases hb with hb | hb
+  · exact resolveFills_ok_f env n body ctx w w' fills hb hc h
+  · unfold resolveFills at h
+    cases body with
+    | nil =>
+      simp only [List.isEmpty_nil, ↓reduceIte, run_pure] at h
+      obtain ⟨rfl, rfl⟩ := ok_inj h
+      exact ⟨fun kv hkv => (by cases hkv), w.steps, rfl⟩
+    | cons nd rest =>
+      simp only [List.isEmpty_cons, Bool.false_eq_true, ↓reduceIte, run_bind, run_get, run_modify] at h
+      have hcE : ctxFree (ctx ++ [[(fillGenKey, Val.fillGen)]]) = true := ctxFree_push ctx _ hc (by simp [slotFreeKvs, slotFree])
+      split at h
+      · rename_i content w1 hrun
+        obtain ⟨st, rfl⟩ := (xstmt_all env n).nodes (nd :: rest) _ _ _ w1 hb hcE (isExtracting_push ctx) hrun
+        by_cases hbl : blankBody (nd :: rest) = true
+        · simp only [run_bind, run_get, run_modify, decideFills, List.isEmpty_nil, ↓reduceIte, hbl, run_pure] at h
+          obtain ⟨rfl, rfl⟩ := ok_inj h
+          exact ⟨fun kv hkv => (by cases hkv), st, rfl⟩
+        · simp only [run_bind, run_get, run_modify, decideFills, List.isEmpty_nil, ↓reduceIte, hbl, Bool.false_eq_true, run_pure] at h
+          obtain ⟨rfl, rfl⟩ := ok_inj h
+          refine ⟨?_, st, rfl⟩
+          intro kv hkv
+          simp only [List.mem_singleton] at hkv
+          rw [hkv]
+          exact ⟨hb, rfl, rfl, rfl⟩
+      · cases h
+
 theorem stmt_tag (env : Env) (n : Nat) (ih : Stmt env n) :
-    ∀ name kwargs only dyn body ctx w toks w', isDynName name = false → fbody body = true → ctxFree ctx = true → WInv w →
+    ∀ name kwargs only dyn body ctx w toks w', isDynName name = false → gbody body = true → ctxFree ctx = true → WInv w →
     (renderCompTag env (n + 1) name kwargs only dyn body ctx).run.run w = (.ok toks, w') → Bal env w w' (holeIds toks) := by
   intro name kwargs only dyn body ctx w toks w' hd hb hc hw h
   unfold renderCompTag at h
@@ -1755,7 +1930,7 @@ deferred loop has run to its end — no placeholder in the output, the registrie
 components the library unfolds under this tag. -/
 theorem tree_root_tag (env : Env) (hlib : GoodLib env) (n : Nat) (name : Str) (kwargs : List (Str × Expr)) (only dyn : Bool)
     (body : List Node) (ctx : Ctx) (w w' : World) (toks : List Tok)
-    (hd : isDynName name = false) (hb : fbody body = true) (hc : ctxFree ctx = true) (hw : WInv w) (hext : isExtracting ctx = false)
+    (hd : isDynName name = false) (hb : gbody body = true) (hc : ctxFree ctx = true) (hw : WInv w) (hext : isExtracting ctx = false)
     (hpar : parentOf (if only || env.isolated then isolatedCopy ctx else ctx) = none)
     (h : (renderCompTag env n name kwargs only dyn body ctx).run.run w = (.ok toks, w')) :
     Bal env w w' [] ∧ holeIds toks = [] := by
@@ -1786,7 +1961,8 @@ theorem tree_root_tag (env : Env) (hlib : GoodLib env) (n : Nat) (name : Str) (k
         exact ⟨Bal.left hcore hbal, this⟩
 
 /-! ### a concrete library for the instances beside the property theorems: page > list > (loop) leaf with a fill for the
-leaf's slot, and a leaf without fill next to the list -/
+leaf's slot, and next to the list a leaf whose tag has an implicit body (a fill for the `default` slot, which `leaf` does
+not have: it is ignored and the slot `s1` renders its default content) -/
 
 def exLeaf : CompDef :=
   { name := "leaf".toList,
@@ -1801,7 +1977,7 @@ def exList : CompDef :=
 def exPage : CompDef :=
   { name := "page".toList,
     template := [.comp "list".toList [("items".toList, .var ["xs".toList])] false false [], .text "-".toList,
-                 .comp "leaf".toList [("a".toList, .lit "z".toList)] false false []],
+                 .comp "leaf".toList [("a".toList, .lit "z".toList)] false false [.text "!".toList]],
     data := [("xs".toList, .const (.list [.str "p".toList, .str "q".toList]))] }
 def exEnv (isolated : Bool) : Env := { isolated := isolated, lib := [exLeaf, exList, exPage] }
 def exCtx : Ctx := rootCtx [("v".toList, .str "V".toList)]
